@@ -33,6 +33,7 @@ func (e *EvalError) Error() string { return e.Msg }
 type Ref struct {
 	env    *Env
 	Allocs []int // allocation trace
+	AllocNodes []*N // the node that made each allocation
 	// ConstFolded tells the evaluator which allocation sites the definition
 	// does not count as run-time allocations (constant arrays / ranges are
 	// built at compile time when optimisation is on). nil = count everything.
@@ -55,6 +56,7 @@ const refDefaultMaxAlloc = 4000000
 
 func (r *Ref) alloc(n *N, size int) *EvalError {
 	r.Allocs = append(r.Allocs, size)
+	r.AllocNodes = append(r.AllocNodes, n)
 	r.total += size
 	max := r.MaxAlloc
 	if max == 0 {
@@ -278,6 +280,14 @@ func (r *Ref) member(n *N, name string) (interface{}, *EvalError) {
 		return e.Objs, nil
 	case "Ob2":
 		return e.Ob2, nil
+	case "I8":
+		return e.I8, nil
+	case "U8":
+		return e.U8, nil
+	case "U16":
+		return e.U16, nil
+	case "I64":
+		return e.I64, nil
 	case "Info", "info":
 		return e.Info, nil
 	case "Index", "index":
@@ -320,6 +330,10 @@ func (r *Ref) prop(n *N, recv interface{}, name string, nilsafe bool) (interface
 		return o.Xs, nil
 	case "Next":
 		return o.Next, nil
+	case "L":
+		return o.L, nil
+	case "F":
+		return o.F, nil
 	}
 	if nilsafe {
 		return nil, nil
@@ -340,6 +354,29 @@ func (r *Ref) guard(n *N, f func() interface{}) (v interface{}, err *EvalError) 
 }
 
 func asInt(v interface{}) (int, bool) { i, ok := v.(int); return i, ok }
+
+// refInt: the bounds of a range may be of any integer kind; each is converted to int.
+func refInt(v interface{}) (int, bool) {
+	switch x := v.(type) {
+	case int:
+		return x, true
+	case int8:
+		return int(x), true
+	case int16:
+		return int(x), true
+	case int32:
+		return int(x), true
+	case int64:
+		return int(x), true
+	case uint8:
+		return int(x), true
+	case uint16:
+		return int(x), true
+	case uint32:
+		return int(x), true
+	}
+	return 0, false
+}
 
 // untypedNil: the literal nil is passed to an interface{} parameter as a nil
 // interface value.
@@ -640,8 +677,8 @@ func (r *Ref) bin(n *N) (interface{}, *EvalError) {
 		}
 		return res, nil
 	case "..":
-		x, ok1 := a.(int)
-		y, ok2 := b.(int)
+		x, ok1 := refInt(a)
+		y, ok2 := refInt(b)
 		if !ok1 || !ok2 {
 			return nil, r.fail(n, "range of %T..%T", a, b)
 		}
